@@ -23,7 +23,7 @@ use tvh::out::CaseOut;
 use tvh::rng::Rng;
 use tvh::{guarded, Args};
 
-const HEADER: &str = "From TV Require Import Base.Prelude Generated.Constants Postings.VInt Postings.FieldNorm Postings.Codec Postings.BP4x Postings.Positions Postings.Spec Postings.Merge Postings.Cases.";
+const HEADER: &str = "From TV Require Import Base.Prelude Generated.Constants Postings.VInt Postings.FieldNorm Postings.Codec Postings.BP4x Postings.Positions Postings.Spec Postings.Merge Postings.Grouping Postings.Cases.";
 
 fn opt_of(k: u64) -> IndexRecordOption {
     match k { 0 => IndexRecordOption::Basic, 1 => IndexRecordOption::WithFreqs, _ => IndexRecordOption::WithFreqsAndPositions }
@@ -616,6 +616,84 @@ fn reuse_checks(out: &mut CaseOut, rng: &mut Rng, inv: &tantivy::InvertedIndexRe
     }
 }
 
+// ---- documents with many values, interleaved across fields ------------------------------------------------------
+struct Interleaved {
+    /// per field (a, b, j): documents as groups (reference input), record option, read-back
+    fields: Vec<(String, IndexRecordOption, Vec<DocIn>, Result<ReadBack, String>)>,
+    /// per document: (field id 0/1/2, token stream; empty for JSON values) in insertion order -- the Coq input
+    raw: Vec<Vec<(u64, Value)>>,
+    desc: serde_json::Value,
+}
+
+fn interleaved_scenario(rng: &mut Rng, sizes: &[usize]) -> Result<Interleaved, String> {
+    use tantivy::tokenizer::{PreTokenizedString, Token};
+    let opt_a = IndexRecordOption::WithFreqsAndPositions;
+    let opt_b = if rng.chance(1, 4) { IndexRecordOption::WithFreqs } else { IndexRecordOption::WithFreqsAndPositions };
+    let tok_b = if rng.chance(1, 2) { "default" } else { "whitespace" };
+    let mut sb = Schema::builder();
+    let norms = rng.chance(1, 2);
+    let fa = sb.add_text_field("a", TextOptions::default().set_indexing_options(TextFieldIndexing::default().set_tokenizer("whitespace").set_index_option(opt_a).set_fieldnorms(norms)));
+    let fn_ = sb.add_u64_field("n", NumericOptions::default().set_indexed());
+    let fb = sb.add_text_field("b", TextOptions::default().set_indexing_options(TextFieldIndexing::default().set_tokenizer(tok_b).set_index_option(opt_b).set_fieldnorms(norms)));
+    let fj = sb.add_json_field("j", JsonObjectOptions::default().set_indexing_options(TextFieldIndexing::default().set_tokenizer("whitespace").set_index_option(IndexRecordOption::WithFreqsAndPositions)));
+    let index = Index::create_in_ram(sb.build());
+    let mut writer = index.writer_with_num_threads::<TantivyDocument>(1, 100_000_000).map_err(|e| format!("{e:?}"))?;
+    let mut docs_a: Vec<DocIn> = vec![]; let mut docs_b: Vec<DocIn> = vec![]; let mut docs_j: Vec<DocIn> = vec![];
+    let mut raw = vec![];
+    for (d, &nvals) in sizes.iter().enumerate() {
+        let mut doc = TantivyDocument::default();
+        let mut va: Vec<Value> = vec![]; let mut vb: Vec<Value> = vec![];
+        let mut per_path: BTreeMap<String, (bool, Vec<Value>)> = BTreeMap::new();
+        let mut rawdoc: Vec<(u64, Value)> = vec![];
+        // insertion pattern: strictly alternating, random, or "later field first" (b..b a..a)
+        let pattern = rng.below(3);
+        for k in 0..nvals {
+            let which = match pattern { 0 => [2u64, 1, 0, 3][k % 4], 1 => rng.below(4), _ => if k < nvals / 2 { 1 } else if k % 5 == 4 { 2 } else { 0 } };
+            let nw = rng.range(1, 3);
+            let text: String = (0..nw).map(|i| format!("d{d}v{k}w{i}x{}", rng.below(3))).collect::<Vec<_>>().join(" ");
+            match which {
+                0 => { let v = analyze(&index, "whitespace", &text); doc.add_text(fa, &text); va.push(v.clone()); rawdoc.push((0, v)); }
+                1 => {
+                    if rng.chance(1, 3) {
+                        // pre-tokenized value: explicit positions (with a hole) and lengths
+                        let mut toks = vec![]; let mut pos = 0usize; let mut off = 0usize;
+                        for w in text.split(' ') { toks.push(Token { offset_from: off, offset_to: off + w.len(), position: pos, text: w.to_string(), position_length: 1 }); off += w.len() + 1; pos += if rng.chance(1, 4) { 2 } else { 1 }; }
+                        let v: Value = toks.iter().map(|t| Tok { term: t.text.as_bytes().to_vec(), pos: t.position as u32, len: t.position_length as u32 }).collect();
+                        doc.add_pre_tokenized_text(fb, PreTokenizedString { text: text.clone(), tokens: toks });
+                        vb.push(v.clone()); rawdoc.push((1, v));
+                    } else { let v = analyze(&index, tok_b, &text); doc.add_text(fb, &text); vb.push(v.clone()); rawdoc.push((1, v)); }
+                }
+                2 => {
+                    let path = format!("p{}", rng.below(2));
+                    let pt = Term::from_field_json_path(fj, &path, false);
+                    let v: Value = analyze(&index, "whitespace", &text).into_iter().map(|t| { let mut term = pt.clone(); term.append_type_and_str(std::str::from_utf8(&t.term).unwrap()); Tok { term: term.serialized_value_bytes().to_vec(), pos: t.pos, len: t.len } }).collect();
+                    per_path.entry(path.clone()).or_insert((true, vec![])).1.push(v);
+                    let mut obj: BTreeMap<String, OwnedValue> = BTreeMap::new();
+                    obj.insert(path, OwnedValue::Str(text));
+                    doc.add_object(fj, obj);
+                    rawdoc.push((2, vec![]));
+                }
+                _ => { doc.add_u64(fn_, k as u64); rawdoc.push((3, vec![])); }
+            }
+        }
+        writer.add_document(doc).map_err(|e| format!("{e:?}"))?;
+        docs_a.push(vec![Group { text: true, values: va }]);
+        docs_b.push(vec![Group { text: true, values: vb }]);
+        docs_j.push(per_path.into_iter().map(|(_, (text, values))| Group { text, values }).collect());
+        raw.push(rawdoc);
+    }
+    writer.commit().map_err(|e| format!("{e:?}"))?;
+    let reader = index.reader().map_err(|e| format!("{e:?}"))?;
+    let searcher = reader.searcher();
+    if searcher.segment_readers().len() != 1 { return Err(format!("expected one segment, got {}", searcher.segment_readers().len())); }
+    let seg = searcher.segment_reader(0);
+    let rb = |field: Field, with_norms: bool| match guarded(|| read_back(seg, field, with_norms, sizes.len())) { Ok(r) => r, Err(p) => Err(format!("panic: {p}")) };
+    let fields = vec![("a".to_string(), opt_a, docs_a, rb(fa, norms)), ("b".to_string(), opt_b, docs_b, rb(fb, norms)),
+                      ("j".to_string(), IndexRecordOption::WithFreqsAndPositions, docs_j, rb(fj, false))];
+    let desc = json!({"what": "documents with many values interleaved across fields", "values_per_doc": sizes, "tokenizer_b": tok_b, "opt_b": opt_code(opt_b), "norms": norms});
+    Ok(Interleaved { fields, raw, desc })
+}
+
 fn fieldnorm_id_ref(n: u32) -> u8 { FieldNormReader::fieldnorm_to_id(n) }
 
 fn main() {
@@ -932,6 +1010,36 @@ fn main() {
                         }
                     }
                 }
+            }
+        }
+    }
+    // ---------------- (v) more than 32 values per document, interleaved across fields ----------------
+    for i in 0..(if thorough { 60 } else { 14 }) {
+        let pool = [1usize, 2, 6, 31, 32, 33, 34, 40, 48, 64, 65, 100];
+        let ndocs = rng.range(1, 4) as usize;
+        let sizes: Vec<usize> = (0..ndocs).map(|k| if k == 0 { pool[3 + (i % 9)] } else { pool[rng.below(pool.len() as u64) as usize] }).collect();
+        match interleaved_scenario(&mut rng, &sizes) {
+            Err(e) => out.spec_checked(false, json!({"what": "interleaved scenario failed", "error": e})),
+            Ok(il) => {
+                for (fk, (name, opt, docs, rb)) in il.fields.iter().enumerate() {
+                    let desc = json!({"what": "field of a segment", "field": name, "scenario": il.desc});
+                    match rb {
+                        Err(e) => out.spec_checked(false, json!({"what": "read-back failed", "error": e, "case": desc})),
+                        Ok(rb) => {
+                            check_against_reference(&mut out, *opt, docs, rb, &desc, None);
+                            out.count("interleaved_fields", 1);
+                            // the specification evaluated by Coq on the documents as they were added (text fields)
+                            if fk < 2 && i % 2 == 0 && il.raw.iter().map(|d| d.len()).sum::<usize>() <= 160 {
+                                let raw_t = cf::list(&il.raw, |d| cf::list(d, |(f, v)| format!("({}, {})", f, cf::list(v, |t| format!("({}, {}, {})", cf::bytes(&t.term), t.pos, t.len)))));
+                                let norms = match &rb.norms { Some(v) => format!("(Some {})", cf::ns(v)), None => "None".into() };
+                                out.coq_case("spec", format!("check_field_raw (ro {}) {} {} {} {} {} {}", opt_code(*opt), fk, raw_t, observed_term(&rb.terms), cf::ns(&rb.doc_freqs), rb.total, norms),
+                                             json!({"what": "field of a segment (documents in insertion order)", "field": name, "scenario": il.desc, "docs": raw_t}), il.raw.iter().any(|d| d.len() > 32));
+                                out.count("interleaved_fields_coq", 1);
+                            }
+                        }
+                    }
+                }
+                out.count("interleaved_docs_over_32_values", sizes.iter().filter(|&&n| n > 32).count() as u64);
             }
         }
     }
